@@ -269,3 +269,34 @@ STACK_UNIT = Unit("C02.inspect_frame_310.stack", IF10, stack_setup, body_of=sele
                                "extraction: see select_stack"])
 
 UNITS = [BLOCKS_UNIT, STACK_UNIT]
+
+
+# ------------------------------------------------------------------------------------------------ FrameObjectStart.f_stacktop (3.10)
+# 3.10 replaced the frame's stack-top POINTER by a depth COUNT; the property papers over it: 0 (the "frame is executing" marker the
+# reader tests for) exactly when the depth is -1, else the address f_valuestack + depth * wordsize.
+def st310_setup(ex, p):
+    self = sym_ref(p, "self", "FrameObjectStart")
+    W = fresh_int("wordsize")
+    p.pc += [Val.is_intv(p.getf(self.t, "f_stackdepth")), Val.is_intv(p.getf(self.t, "f_valuestack")), W > 0,
+             Val.i(p.getf(self.t, "f_stackdepth")) >= -1, Val.i(p.getf(self.t, "f_valuestack")) > 0]
+    p.env["self"] = self
+    ex.unit.bindings["wordsize"] = sv_int(W)
+    ex.unit_args = dict(self=self, W=W)
+    return ex.unit_args
+
+
+def st310_post(ctx):
+    s_ = ctx.args["self"].t
+    d, vs = Val.i(ctx.H0.getf(s_, "f_stackdepth")), Val.i(ctx.H0.getf(s_, "f_valuestack"))
+    r = Val.i(ctx.result.t)
+    return And(Val.is_intv(ctx.result.t), r == If(d == -1, 0, vs + d * ctx.args["W"]),
+               # ... so the marker value 0 is returned ONLY for an executing frame (an address is never 0)
+               (r == 0) == (d == -1))
+
+
+STACKTOP_310 = Unit("C02.frame_object_310.f_stacktop", "stackscope._lowlevel_cpython_310.FrameObjectStart.f_stacktop", st310_setup,
+                    post=[Clause("C02.stack310.stacktop_is_zero_iff_executing_else_address_of_depth", st310_post)],
+                    bindings=dict(STD_BINDINGS), methods=dict(STD_METHODS), known_classes=["FrameObjectStart"], cfg=PY310_CFG if "PY310_CFG" in globals() else dict(version=(3, 10, 13, "final", 0)),
+                    field_types={"f_stackdepth": "int", "f_valuestack": "int"}, allowed_raise=lambda ctx: BoolVal(False),
+                    assumptions=["ctypes structure fields read as plain ints; wordsize > 0; f_valuestack is a non-null address and f_stackdepth >= -1 (CPython 3.10 frame layout)"])
+UNITS = UNITS + [STACKTOP_310]
